@@ -123,6 +123,7 @@ ContractStep ==
     \* (5) lzma_filters_update
     /\ e.kind = "update" =>
           /\ (~ValidChain(e.target) => e.ret = "OPTIONS_ERROR")
+          /\ (~InitOk(e.target) => e.ret # "OK")
           \* the chain itself changes only between Blocks; inside a Block only lc/lp/pb
           /\ (e.ret = "OK" /\ e.open) => (cfg.enc # "mt" /\ e.target.pre = fl.pre /\ e.target.lz = fl.lz)
           /\ UNCHANGED lcvars
